@@ -705,4 +705,35 @@ theorem tr_copyBindingss (n K : Nat) (g : Env) (H : Heap) (objs : List (Nat × M
   simp
 
 
+/-! ## `Matches`, `Match` (package function) -/
+
+theorem find_Matches : findFn matchProg ".Matches" = some matchProg_MMatches := by rfl
+theorem find_MatchFn : findFn matchProg "Match" = some matchProg_Match := by rfl
+
+/-- the translated `Matcher.Matches` is `Match` with a new, empty bindings map -/
+theorem tr_Matches (n : Nat) (g : Env) (H : Heap) (m p f : GV) :
+    callFn (n + 20) matchProg g ".Matches" m [p, f] H =
+      callFn (n + 16) matchProg g ".Match" m [p, f, .ref H.length] (H ++ [{ ty := "Bindings", kvs := [] }]) := by
+  conv =>
+    lhs
+    rw [show n + 20 = (n + 19) + 1 from rfl]
+    simp only [callFn, find_Matches]
+  simp [-callFn, matchProg_MMatches]
+  cases callFn (n + 16) matchProg g ".Match" m [p, f, .ref H.length] (H ++ [{ ty := "Bindings", kvs := [] }]) with
+  | error e => rfl
+  | ok r => obtain ⟨vs, h1⟩ := r; rfl
+
+/-- the package function `Match` is `DefaultMatcher.Match` -/
+theorem tr_MatchFn (n : Nat) (g : Env) (H : Heap) (dm p f bs : GV) (hg : envGet "DefaultMatcher" g = some dm) :
+    callFn (n + 20) matchProg g "Match" .nil [p, f, bs] H = callFn (n + 16) matchProg g ".Match" dm [p, f, bs] H := by
+  conv =>
+    lhs
+    rw [show n + 20 = (n + 19) + 1 from rfl]
+    simp only [callFn, find_MatchFn]
+  simp [-callFn, matchProg_Match, hg]
+  cases callFn (n + 16) matchProg g ".Match" dm [p, f, bs] H with
+  | error e => rfl
+  | ok r => obtain ⟨vs, h1⟩ := r; rfl
+
+
 end Sheens.TrMatch
